@@ -9,7 +9,7 @@
 (*    res: Res -> ViewKind, par: BOOLEAN, id: BOOLEAN]                      *)
 (* ViewKind = "none" | "ref" | "mut" | "optref" | "optmut"                  *)
 (* FilterAST = <<"none">> | <<"has", c>> | <<"not", f>> | <<"and", f, g>>   *)
-(*           | <<"or", f, g>>                                               *)
+(*           | <<"or", f, g>> | <<"vref", c>> | <<"vmut", c>> | <<"vopt", c>> *)
 (* An archetype is the set of its components.                               *)
 (***************************************************************************)
 EXTENDS Naturals, Sequences, FiniteSets
@@ -28,6 +28,8 @@ Eval(f, arch) ==
     [] f[1] = "not" -> ~Eval(f[2], arch)
     [] f[1] = "and" -> Eval(f[2], arch) /\ Eval(f[3], arch)
     [] f[1] = "or" -> Eval(f[2], arch) \/ Eval(f[3], arch)
+    [] f[1] \in {"vref", "vmut"} -> f[2] \in arch      \* a view used as a filter
+    [] f[1] = "vopt" -> TRUE
 
 CompsOfQ(q) == DOMAIN q.views
 Required(q) == {c \in CompsOfQ(q) : q.views[c] \in {"ref", "mut"}}
